@@ -75,6 +75,28 @@ def run(rep, work, rng, tier):
     for cid, lines, ks in reuse_cases(rng, tier):
         cases.append((cid, lines))
         for k in ks: kinds[k] = kinds.get(k, 0) + 1
+    # channel columns where the header cannot know the number of frames: sub-frames that hold no channel yet on an object without
+    # points (the header then reports 0 frames), and POINT:FRAMES set by hand to another number before the column is added —
+    # the column goes to every STORED frame
+    for i in range(10 if tier == 'quick' else 600):
+        nsub = rng.choice([1, 2, 3]); nf = rng.choice([1, 2, 4])
+        lines = ['new 0', 'snap 0', 'P.new x52415445 x', 'P.set F 0 1 42c80000', 'param 0 x504f494e54', 'P.new x52415445 x', 'P.set F 0 1 %s' % harness.fhex(harness.f2bits(100.0 * nsub)), 'param 0 x414e414c4f47', 'snap 0']
+        names = []
+        if i % 2 == 0:
+            lits = [rand_lit(rng, [], [], 0) for _ in range(nf)]
+            for l in lits: l.subs = [[] for _ in range(nsub)]
+            for l in lits: lines += ['frame 0 - ' + l.text(), 'snap 0']
+            kind = 'channel-column-on-sub-frames-without-channels'
+        else:
+            names = [b'q0']; chans = [b'c0']
+            lines = ['new 0', 'point 0 ' + hx(b'q0'), 'analog 0 ' + hx(b'c0')] + lines[2:]
+            for _k in range(nf): lines += ['frame 0 - ' + rand_lit(rng, names, chans, nsub).text(), 'snap 0']
+            lines += ['P.new %s x' % hx(b'FRAMES'), 'P.set I 0 1 %d' % rng.choice([max(0, nf - 1), nf + 2, 0]), 'param 0 x504f494e54', 'snap 0']
+            kind = 'channel-column-after-POINT:FRAMES-set-by-hand'
+        cl = [rand_lit(rng, [], [b'newc'], nsub) for _ in range(nf)]
+        lines += ['analogcol 0 %d %s' % (nf, ' '.join(l.text() for l in cl)), 'snap 0']
+        if i % 2 == 0: lines += ['analog 0 ' + hx(b'newd'), 'snap 0']
+        cases.append(('fc%d' % i, lines)); kinds[kind] = kinds.get(kind, 0) + 1
     n = 150 if tier == 'quick' else 16000
     for i in range(n):
         b = conforming_history(rng, max_frames=rng.choice([4, 8, 12]))
